@@ -24,9 +24,9 @@ CHECKS["C09"] = dict(
     design="4/C09")
 
 CHECKS["C11"] = dict(
-    text="Coq theorems about the recursive traversal model: non-editing visitors always get 'keep' (identity), parallel non-editing visitors see exactly their solo call sequence incl. under SKIP and BREAK (C11_parallel_projection), the all-idle visitor's call log is the DFS enter/leave bracket sequence with the stated key/path/#ancestors and depth fuel suffices; QUERY_DOCUMENT_KEYS re-swept against the node classes every run. The real visit()/ParallelVisitor (explicit-stack machine) is tied to the model by correspondence on generated ASTs of all node kinds x scripted visitors (idle/skip/break/remove/replace on enter/leave, root included) x parallel groupings: call logs, result trees, identity, input snapshots, context at every call",
-    note="visit_rec model is specification-shaped; machine-refines-model is by correspondence not proof; reflection-based dispatch only explored",
-    technique="Coq proof (recursive traversal model) + extraction-based correspondence with scripted visitors",
+    text="Coq theorems about the recursive traversal model: non-editing visitors always get 'keep' (identity), parallel non-editing visitors see exactly their solo call sequence incl. under SKIP and BREAK (C11_parallel_projection), the all-idle visitor's call log is the DFS enter/leave bracket sequence with the stated key/path/#ancestors and depth fuel suffices; QUERY_DOCUMENT_KEYS re-swept against the node classes every run. The explicit-stack loop of visit() (Stack frames, edits lists with edit_offset, path/ancestors, SKIP/BREAK/REMOVE/replacement on enter and leave, root included) is modelled step by step (Lang/VisitMachine.v) and PROVED to refine the recursive model for every tree and every visitor incl. all edits: same call log, visitor state and result, never stuck, explicit step bounds (C11_machine_refines_model, C11_machine_fuel_sufficient; identity, DFS order and parallel projection transferred to the machine). The real visit()/ParallelVisitor is tied to both models by correspondence on generated ASTs of all node kinds x scripted visitors (idle/skip/break/remove/replace on enter/leave) x parallel groupings: call logs, result trees, identity, input snapshots, context at every call",
+    note='machine-level: never raises / runs out of fuel whenever the recursive model terminates (a visitor whose enter-replacements nest without bound makes the real loop diverge too); the value returned after a BREAK that follows an edit is modelled and compared but not a property observable; reflection-based method dispatch only explored',
+    technique='Coq proof (recursive traversal model + refinement proof of the explicit-stack machine by simulation) + extraction-based correspondence of both models with scripted visitors',
     design="4/C11")
 
 CHECKS["C08"] = dict(
@@ -64,9 +64,9 @@ CHECKS["C14"] = dict(
     technique="Coq proof (spec function terminates and is adequate; memo laws) + extraction-based differential correspondence",
     design="4/C14")
 CHECKS["C12"] = dict(
-    text="validate() modelled as one traversal with a parallel composition of abstract non-editing rule visitors (private state, SKIP/BREAK) and an error sink with limit; proved for all rule sets and documents: limit = prefix + abort notice, together = per-rule projection / permutation of alone (general, incl. SKIP and BREAK), excluded (description) slots never visited. The concrete rules, TypeInfo and the context caches are not modelled: rule independence, determinism, non-mutation and invariance under reprint/ignored characters/descriptions/location-free ASTs are searched for counterexamples on the implementation (every specified rule alone vs together, subsets, orderings, max_errors, metamorphic rewrites, snapshots)",
-    note="rules are abstract in the theorems; that each concrete rule only depends on its own state and the node is checked by the alone-vs-together correspondence, not proved per rule; messages compared implementation-vs-implementation only, locations as AST node paths; 'never raises' is C01's subject",
-    technique="Coq proof (composition mechanism: limit, projection, permutation) + alone-vs-together and metamorphic exploration",
+    text='validate() modelled as one traversal with a parallel composition of abstract non-editing rule visitors (private state, SKIP/BREAK) and an error sink with limit; proved for all rule sets and documents: limit = prefix + abort notice, together = per-rule projection / permutation of alone (general, incl. SKIP and BREAK), excluded (description) slots never visited. Twelve concrete rules that never consult the schema (ExecutableDefinitions, UniqueOperationNames, LoneAnonymousOperation, KnownFragmentNames, UniqueFragmentNames, NoUnusedFragments, NoFragmentCycles, UniqueVariableNames, NoUndefinedVariables, NoUnusedVariables, UniqueArgumentNames, UniqueInputFieldNames) are modelled as executable functions of the parser AST written as the code is (first-wins scans, last-definition-wins fragment table, work list of referenced fragments, cycle DFS, recursive variable usages) and proved, for all trees: reported errors = declarative violations with exact multiplicities, fuel sufficient incl. cyclic fragments, cycle search sound and (with unique fragment names; necessity shown by example) complete, independent of descriptions and of layout; tied to the implementation rule by rule alone and inside validate() in three rule orders (multisets of (rule, node paths)). The remaining rules, TypeInfo and the context caches: rule independence, determinism, non-mutation and invariance under reprint/ignored characters/descriptions/location-free ASTs are searched for counterexamples on the implementation (every specified rule alone vs together, subsets, orderings, max_errors, metamorphic rewrites, snapshots)',
+    note="proved per rule for 12 of the ~30 rules; the schema-dependent rules, TypeInfo and the ParallelVisitor/SKIP mechanics of concrete rules remain checked by alone-vs-together only; the extraction layer of the rule models (key table, spread order, usages) is tied by correspondence; the concrete rules are not yet instances of the abstract Compose.rule visitors (the link is the correspondence); messages compared implementation-vs-implementation only, locations as AST node paths; 'never raises' is C01's subject",
+    technique='Coq proof (composition mechanism: limit, projection, permutation; per-rule soundness/completeness for 12 concrete rules) + extraction-based differential correspondence + alone-vs-together and metamorphic exploration',
     design="4/C12")
 
 CHECKS["C16"] = dict(
@@ -122,9 +122,13 @@ NOT_YET = {}
 
 
 MODELS = {"C01": ["lang", "parser"], "C03": ["errorsalg"], "C04": ["incr"], "C07": ["subscribe", "exec"], "C08": ["lang", "blockstring", "parser"],
-          "C09": ["lang", "parser"], "C10": ["lang"], "C11": ["lang"], "C12": ["compose"], "C14": ["overlap"], "C15": ["coerce"],
+          "C09": ["lang", "parser"], "C10": ["lang"], "C11": ["lang", "visitm"], "C12": ["compose", "rules"], "C14": ["overlap"], "C15": ["coerce"],
           "C16": ["scalars"], "C20": ["schemaval"], "C02": ["exec"], "C13": ["exec"], "C05": ["workqueue"],
           "C06": ["lifecycle"], "C17": ["schemaops"], "C18": ["schemaops"], "C19": ["schemaops"]}
+
+
+# further theorem-only files Properties/<name>.v accounted for by a check (Check.proofs(extra_files=...))
+EXTRA_PROPS = {"C11": ["C11mach"], "C12": ["C12rules"]}
 
 
 def main():
@@ -163,6 +167,7 @@ def main():
     (V / "MANIFEST.json").write_text(json.dumps(man, indent=1))
     reg = {c["property_id"]: MODELS.get(c["property_id"], []) for c in checks}
     (V / "harness" / "registry.json").write_text(json.dumps(reg, indent=1))
+    (V / "harness" / "registry_extra.json").write_text(json.dumps(EXTRA_PROPS, indent=1))
 
 
 if __name__ == "__main__":
